@@ -11,6 +11,7 @@
  *   cfg check N          full model check every N steps (default 1)
  *   cfg seed N           content stream seed
  *   a BYTES CODE KIND    allocate; KIND e=exact root, i=interior root, d=dropped at once
+ *   z BYTES CODE KIND    the same through stoCAlloc (the block must come back zeroed)
  *   f SLOT               free
  *   r SLOT BYTES         resize
  *   c SLOT CODE          recode
@@ -322,6 +323,8 @@ static void checkNewBlock(char *p, unsigned long bytes, const char *what)
 	if (!stoIsPointer(p)) verdict("lost-live", "%s(%lu): result is not an allocated piece", what, bytes);
 }
 
+static int useCAlloc;	/* next opAlloc goes through stoCAlloc and checks for zeroes */
+
 static long opAlloc(unsigned long bytes, unsigned code, int kind)
 {
 	unsigned long refusedBefore = oomSeen;
@@ -331,8 +334,15 @@ static long opAlloc(unsigned long bytes, unsigned code, int kind)
 	if (nB >= MAXBLK - 1) return -1;
 	if (bytes == 0) bytes = 1;
 	if (liveBytes + bytes > LIVE_CAP) return -1;	/* keep the cost of collections and checks bounded */
-	p = (char *) stoAlloc(code, bytes);
+	if (useCAlloc && simSbrkRefusePending()) useCAlloc = 0;	/* stoCAlloc clears its result unchecked */
+	p = (char *) (useCAlloc ? stoCAlloc(code, bytes) : stoAlloc(code, bytes));
 	noteNatural();
+	if (p && useCAlloc) {
+		unsigned long i;
+		for (i = 0; i < bytes; i++)
+			if (p[i]) verdict("content", "stoCAlloc(%lu): byte %lu is not zero", bytes, i);
+	}
+	useCAlloc = 0;
 	if (!p) {
 		nAllocNull++;
 		if (oomSeen == refusedBefore) verdict("null", "stoAlloc(%lu) returned null without reporting out-of-memory", bytes);
@@ -508,6 +518,11 @@ int main(int argc, char **argv)
 		switch (op[0]) {
 		case 'a':
 			sscanf(line, "a %lu %lu %7s", &a, &b, k);
+			opAlloc(a, (unsigned) b, k[0] ? k[0] : K_EXACT);
+			break;
+		case 'z':	/* like a, through stoCAlloc */
+			sscanf(line, "z %lu %lu %7s", &a, &b, k);
+			useCAlloc = 1;
 			opAlloc(a, (unsigned) b, k[0] ? k[0] : K_EXACT);
 			break;
 		case 'f':
